@@ -150,7 +150,7 @@ use core::sync::atomic::{AtomicBool, AtomicUsize};
 
 #[cfg(feature = "std")]
 use std::{
-    cell::{Cell, RefCell, RefMut},
+    cell::{Cell, Ref, RefCell},
     error,
 };
 
@@ -461,14 +461,16 @@ where
             if state.can_enter.replace(false) {
                 let _guard = Entered(&state.can_enter);
 
-                let mut default = state.default.borrow_mut();
-                let default = default
-                    // if the local default for this thread has never been set,
-                    // populate it with the global default, so we don't have to
-                    // keep getting the global on every `get_default_slow` call.
-                    .get_or_insert_with(|| get_global().clone());
+                let default = state.default.borrow();
+                let default = match &*default {
+                    Some(default) => default,
+                    // if no scoped default is set on this thread, use the
+                    // global default. This must not be cached in the
+                    // thread-local: the global default may be set later.
+                    None => get_global(),
+                };
 
-                return f(&*default);
+                return f(default);
             }
 
             f(&Dispatch::none())
@@ -1031,15 +1033,14 @@ impl State {
         let prior = CURRENT_STATE
             .try_with(|state| {
                 state.can_enter.set(true);
-                state
-                    .default
-                    .replace(Some(new_dispatch))
-                    // if the scoped default was not set on this thread, set the
-                    // `prior` default to the global default to populate the
-                    // scoped default when unsetting *this* default
-                    .unwrap_or_else(|| get_global().clone())
+                // if the scoped default was not set on this thread, the
+                // `prior` default is `None`, so that dropping the guard leaves
+                // the thread without a scoped default again (and it keeps
+                // following the global default).
+                state.default.replace(Some(new_dispatch))
             })
-            .ok();
+            .ok()
+            .flatten();
         #[cfg(feature = "verif-hooks")]
         crate::__verif::point("dispatch.SCOPED_COUNT.fetch_add");
         EXISTS.store(true, Ordering::Release);
@@ -1062,10 +1063,11 @@ impl State {
 #[cfg(feature = "std")]
 impl<'a> Entered<'a> {
     #[inline]
-    fn current(&self) -> RefMut<'a, Dispatch> {
-        let default = self.0.default.borrow_mut();
-        RefMut::map(default, |default| {
-            default.get_or_insert_with(|| get_global().clone())
+    fn current(&self) -> Ref<'a, Dispatch> {
+        let default = self.0.default.borrow();
+        Ref::map(default, |default| match default {
+            Some(default) => default,
+            None => get_global(),
         })
     }
 }
@@ -1087,15 +1089,13 @@ impl Drop for DefaultGuard {
         #[cfg(feature = "verif-hooks")]
         crate::__verif::point("dispatch.SCOPED_COUNT.fetch_sub");
         SCOPED_COUNT.fetch_sub(1, Ordering::Release);
-        if let Some(dispatch) = self.0.take() {
-            // Replace the dispatcher and then drop the old one outside
-            // of the thread-local context. Dropping the dispatch may
-            // lead to the drop of a collector which, in the process,
-            // could then also attempt to access the same thread local
-            // state -- causing a clash.
-            let prev = CURRENT_STATE.try_with(|state| state.default.replace(Some(dispatch)));
-            drop(prev)
-        }
+        // Replace the dispatcher and then drop the old one outside
+        // of the thread-local context. Dropping the dispatch may
+        // lead to the drop of a collector which, in the process,
+        // could then also attempt to access the same thread local
+        // state -- causing a clash.
+        let prev = CURRENT_STATE.try_with(|state| state.default.replace(self.0.take()));
+        drop(prev)
     }
 }
 
